@@ -233,6 +233,16 @@ def sync_call(style, rt, fr, how):
 # batches
 
 
+class HFutureResult(lang.FutureResult, ConstFuture):
+    """A real asynq future used as a task's result value."""
+
+    def __init__(self, payload):
+        ConstFuture.__init__(self, payload)
+
+    def payload_of(self):
+        return self.value()
+
+
 class HBatch(BatchBase):
     def __init__(self, rt, kind):
         BatchBase.__init__(self)
@@ -710,6 +720,10 @@ class HarnessRT(object):
     # ---- services to the program text
     def result(self, fr, value):
         asynq_result(value)
+
+    def future_result(self, fr, value):
+        self.n_future_results = getattr(self, "n_future_results", 0) + 1
+        return HFutureResult(value)
 
     def make_exc(self, fr, site, cls):
         tag = ("raise", site, fr.path)
